@@ -370,10 +370,26 @@ func globMatch(pat, s string) bool {
 	if pat == "*" {
 		return true
 	}
-	if strings.HasSuffix(pat, "*") {
-		return strings.HasPrefix(s, strings.TrimSuffix(pat, "*"))
+	parts := strings.Split(pat, "*")
+	if len(parts) == 1 {
+		return pat == s
 	}
-	return pat == s
+	if !strings.HasPrefix(s, parts[0]) {
+		return false
+	}
+	s = s[len(parts[0]):]
+	for i := 1; i < len(parts); i++ {
+		p := parts[i]
+		if i == len(parts)-1 {
+			return strings.HasSuffix(s, p)
+		}
+		j := strings.Index(s, p)
+		if j < 0 {
+			return false
+		}
+		s = s[j+len(p):]
+	}
+	return true
 }
 
 func (e *Engine) propsFor(fn, kind string) []string {
